@@ -6,6 +6,7 @@ import (
 	"os"
 	"os/exec"
 	"path/filepath"
+	"regexp"
 	"strings"
 	"time"
 
@@ -174,13 +175,14 @@ func c10PublicAPI(r *Runner) {
 				// must be gofmt of the original with only the call identifier substituted
 				content := a[strings.Index(a, "\x00")+1:]
 				orig := s.files[n]
+				// whatever fresh name the generator chose: read it from the rewritten call site and require the file to
+				// be exactly gofmt(original with that identifier substituted at the last deriveEqual call)
 				okRen := false
-				for _, nn := range []string{"deriveEqual_", "deriveEqual_B", "deriveEqualB", "deriveEqual_1"} {
+				if m := regexp.MustCompile(`return (\w+)\(a, b\)`).FindAllStringSubmatch(content, -1); len(m) > 0 {
+					nn := m[len(m)-1][1]
 					idx := strings.LastIndex(orig, "deriveEqual(")
 					cand := orig[:idx] + nn + orig[idx+len("deriveEqual"):]
-					if gofmtSrc(cand) == content {
-						okRen = true
-					}
+					okRen = nn != "deriveEqual" && gofmtSrc(cand) == content
 				}
 				if !okRen {
 					problems = append(problems, n+" is not gofmt(original with the renamed identifier)")
